@@ -39,7 +39,7 @@ TRUSTED_BASE = [
     "axioms allowed in property theorems: propext, Classical.choice, Quot.sound (audited by #print axioms on every run)",
     "Lean compiler/runtime for the executable model driver (same definitions the theorems are about)",
     "correspondence check: C harness abstraction functions, script generators, gcc, glibc, AddressSanitizer",
-    "hand-written model: each C function implements its model step is checked by differential execution, not proved",
+    "hand-written models are tied to the C code by differential execution on every run and, for the functions covered, by translator ties: Lean definitions regenerated from the clang AST of the current source and kernel-checked equal to the model (trusting the translator's reading of the AST and its primitive vocabulary)",
 ]
 
 _tmpdirs = []
